@@ -99,7 +99,8 @@ SPECS = {
         thorough=2500,
         reexport_every=1,
         rule="SAN invariants I4 (input table fingerprint unchanged), I5 (argument expressions unchanged), I7, I10 (backend receives a clone), "
-        "I11 (one read-only SELECT per export), I13 (every export repeated: same frame, same SQL text) on every verb application / export "
+        "I11 (one read-only SELECT per export), I13 (every export repeated: same frame, same SQL text) on every verb application / export; "
+        "the Polars source frames handed to Table(...) are compared with a snapshot after every program "
         "of the generated pipelines",
     ),
     "C11": dict(
@@ -158,6 +159,7 @@ def run(run_, prop, n, shard_index=0):
         run_.counters["programs:" + fam] += 1
         run_.counters["steps"] += len(prog["steps"])
         run_.counters["probes_judged"] += out.probes_judged
+        run_.counters["source_frames_checked_unchanged"] += out.source_frames_checked
         judged += out.probes_judged
         for k, v in out.judged_as.items():
             run_.counters["judged_as:" + k] += v
